@@ -15,7 +15,7 @@ def plan(tier, seed):
         "functions_encoded": ["SupplyBackpressure::{push_bytes,has_data}", "<SupplyBackpressure as BackpressureStrategy>::prepare_write", "bytes::{BytesMut,Buf::get_u64,take,put}"],
         "bounds": {"item_bytes": "0..1 quick (+2 seeded) / 0..2 thorough", "shape_length": "3 quick / 4 thorough", "unwind": 8},
         "stubs": [],
-        "outside": ["command lanes' handler invocation and ad hoc commands (CommandOutput / external_links): not encoded", "the Uplinks scheduler around the strategy (write_queue, queued flag, special queue): needs RemoteSender/byte channels",
+        "outside": ["shapes with a non-empty push after a hand-back that consumed a non-empty item (CBMC aborts on BytesMut::reserve of an advanced buffer: measured)", "command lanes' handler invocation and ad hoc commands (CommandOutput / external_links): not encoded", "the Uplinks scheduler around the strategy (write_queue, queued flag, special queue): needs RemoteSender/byte channels",
                     "agent-side SupplyLane queue, real channel writes, task interleavings"],
         "assumptions": ["the harness's caller protocol is the one in remotes/uplink/mod.rs (read, not encoded)"],
     }
